@@ -428,16 +428,35 @@ func checkValid(c *core.Case, class string, inputs []string) {
 		return
 	}
 	if d := ms1.Mallocs - ms0.Mallocs; d != 0 && !c.W.Multi() {
-		// confirm: a background runtime allocation can be charged once; repeat.
-		runtime.ReadMemStats(&ms0)
+		// The counter is process-wide: the runtime and the worker's own watchdog allocate now and
+		// then, more often on a loaded machine. Valid is deterministic, so a call that allocates
+		// does so every time: find an (input, flags) pair whose 64 repetitions cost at least 64
+		// allocations, twice in a row. Background noise cannot do that.
+		found := false
+	pairs:
 		for _, s := range inputs {
 			for f := 0; f < 64; f++ {
-				iso8601.Valid(s, iso8601.ValidFlags(f))
+				var n [2]uint64
+				for rep := 0; rep < 2; rep++ {
+					runtime.ReadMemStats(&ms0)
+					for i := 0; i < 64; i++ {
+						iso8601.Valid(s, iso8601.ValidFlags(f))
+					}
+					runtime.ReadMemStats(&ms1)
+					n[rep] = ms1.Mallocs - ms0.Mallocs
+					if n[rep] < 64 {
+						break
+					}
+				}
+				if n[0] >= 64 && n[1] >= 64 {
+					c.Violation(class, "allocates", fmt.Sprintf("Valid(%q, %#x) allocates on every call: %d and %d heap allocations in two runs of 64 calls", s, f, n[0], n[1]), map[string]any{"input": s, "flags": f})
+					found = true
+					break pairs
+				}
 			}
 		}
-		runtime.ReadMemStats(&ms1)
-		if d2 := ms1.Mallocs - ms0.Mallocs; d2 != 0 {
-			c.Violation(class, "allocates", fmt.Sprintf("%d and %d heap allocations during %d Valid calls", d, d2, len(want)), map[string]any{"inputs": inputs})
+		if !found {
+			c.Count("allocation-noise.not-attributable-to-a-call", int(d))
 		}
 	}
 	k := 0
